@@ -94,6 +94,12 @@ class World:
             common.wipe_dir(common.db_dir())
             common.wipe_dir(common.tmp_dir())
             self.path = os.path.join(common.db_dir(), "db.csv")
+            if cfg.get("symlink"):
+                # the database is opened through a symbolic link to a file in another directory
+                real = os.path.join(common.db_dir(), "elsewhere")
+                os.makedirs(real)
+                open(os.path.join(real, "real.csv"), "w").close()
+                os.symlink(os.path.join(real, "real.csv"), self.path)
         common.reset_clock(cfg.get("clock_step", 0))
         self.db = self._open()
 
@@ -374,7 +380,11 @@ class World:
         return sorted(_norm_name(n) for n in os.listdir(common.tmp_dir()))
 
     def db_listing(self):
-        return sorted(_norm_name(n) for n in os.listdir(common.db_dir()))
+        out = [_norm_name(n) for n in os.listdir(common.db_dir())]
+        real = os.path.join(common.db_dir(), "elsewhere")  # the link target's directory of a symlinked-path configuration
+        if os.path.isdir(real):
+            out += ["elsewhere/" + _norm_name(n) for n in os.listdir(real)]
+        return sorted(out)
 
 
 _TMPNAME = re.compile(r"^tmp[A-Za-z0-9_]{8}")
